@@ -64,13 +64,26 @@ impl<'a> WriteTransaction<'a> {
         ensures r is Ok ==> (r->Ok_0.has_name(NAMESPACES_V1_NAME()) <==> self.st.base().namespaces_v1 is Some),
     { unimplemented!() }
 
-    /// WriteTransaction::delete_table (effect not modelled: only used on the Execute path of migration 003)
-    #[verifier::external_body]
-    pub fn delete_table(&self, d: NamespacesV1TableDef) -> (r: std::result::Result<bool, StorageError>)
-    { unimplemented!() }
 }
 
-// ---- table names / handles (list_tables) ----
+/// WriteTransaction::delete_table, by table definition (trait dispatch as for `open_table`): the deleted table is gone when the
+/// transaction is released. (A deleted capability table reads as empty.)
+pub trait DeleteTable<D> {
+    spec fn deleted(&self, d: D) -> bool;
+    fn delete_table(&self, d: D) -> (r: std::result::Result<bool, StorageError>)
+        ensures r is Ok ==> self.deleted(d);
+}
+impl<'a> DeleteTable<NamespacesV1TableDef> for WriteTransaction<'a> {
+    open spec fn deleted(&self, d: NamespacesV1TableDef) -> bool { self.st.fin().namespaces_v1 is None }
+    #[verifier::external_body]
+    fn delete_table(&self, d: NamespacesV1TableDef) -> (r: std::result::Result<bool, StorageError>) { unimplemented!() }
+}
+impl<'a> DeleteTable<NamespacesTableDef> for WriteTransaction<'a> {
+    open spec fn deleted(&self, d: NamespacesTableDef) -> bool { self.st.fin().namespaces =~= Map::<Seq<u8>, (u8, Seq<u8>)>::empty() }
+    #[verifier::external_body]
+    fn delete_table(&self, d: NamespacesTableDef) -> (r: std::result::Result<bool, StorageError>) { unimplemented!() }
+}
+
 pub uninterp spec fn NAMESPACES_V1_NAME() -> Seq<char>;
 
 #[verifier::external_body]
@@ -222,16 +235,31 @@ impl LatestTbl {
     { unimplemented!() }
 }
 
-// ---- v1 namespaces table iteration (migration 002; contents not specified: only the skip condition is verified) ----
+// ---- v1 namespaces table iteration (migration 002): every row exactly once ----
 #[verifier::external_body]
 pub struct SecretValGuard { _p: u8 }
 impl SecretValGuard {
+    pub uninterp spec fn view(&self) -> Seq<u8>;
     #[verifier::external_body]
-    pub fn value(&self) -> (r: &[u8; 32]) { unimplemented!() }
+    pub fn value(&self) -> (r: &[u8; 32]) ensures r@ == self@ { unimplemented!() }
 }
 #[verifier::external_body]
 pub struct NsKeyGuard { _p: u8 }
+impl NsKeyGuard {
+    pub uninterp spec fn view(&self) -> Seq<u8>;
+}
 pub type NsV1Item = std::result::Result<(NsKeyGuard, SecretValGuard), StorageError>;
+/// `s` lists the keys of the v1 table, each exactly once
+pub open spec fn v1_listing(s: Seq<Seq<u8>>, m: Map<Seq<u8>, Seq<u8>>) -> bool {
+    &&& (forall|i: int, j: int| 0 <= i < j < s.len() ==> #[trigger] s[i] != #[trigger] s[j])
+    &&& (forall|i: int| 0 <= i < s.len() ==> #[trigger] m.contains_key(s[i]))
+    &&& (forall|k: Seq<u8>| m.contains_key(k) ==> exists|i: int| 0 <= i < s.len() && #[trigger] s[i] == k)
+}
+/// item i is the row of key s[i] or a storage error
+pub open spec fn v1_items_of(items: Seq<NsV1Item>, s: Seq<Seq<u8>>, m: Map<Seq<u8>, Seq<u8>>) -> bool {
+    &&& items.len() == s.len()
+    &&& (forall|i: int| 0 <= i < items.len() && (#[trigger] items[i]) is Ok ==> items[i]->Ok_0.0@ == s[i] && items[i]->Ok_0.1@ == m[s[i]])
+}
 #[verifier::external_body]
 pub struct NsV1Iter { _p: u8 }
 impl NsV1Iter {
@@ -250,23 +278,36 @@ impl vstd::std_specs::iter::IteratorSpecImpl for NsV1Iter {
     open spec fn peek(&self, i: int) -> Option<NsV1Item> { if 0 <= i < self.rest().len() { Some(self.rest()[i]) } else { None } }
 }
 impl NamespacesV1Tbl {
+    /// ReadableTable::iter. Size assumption as for the records table.
     #[verifier::external_body]
     pub fn iter(&self) -> (r: std::result::Result<NsV1Iter, StorageError>)
-        ensures r is Ok ==> r->Ok_0.rest().len() <= usize::MAX,
+        ensures r is Ok ==> r->Ok_0.rest().len() <= usize::MAX
+            && (exists|s: Seq<Seq<u8>>| v1_listing(s, self@) && #[trigger] v1_items_of(r->Ok_0.rest(), s, self@)),
     { unimplemented!() }
 }
 
-// ---- capability shells used by migration 002 (values not specified) ----
+// ---- capability shells used by migration 002: the contracts proved on the real text in U-cap-merge (cap.id.*, cap.raw.*), restricted to
+// write capabilities; proved from them by //@shellcheck in U-cap-merge ----
 #[verifier::external_body]
 pub struct NamespaceSecret { _p: u8 }
 impl NamespaceSecret {
+    pub uninterp spec fn spec_id(&self) -> NamespaceId;
+    pub uninterp spec fn spec_to_bytes(&self) -> Seq<u8>;
+    pub uninterp spec fn spec_from_bytes(b: Seq<u8>) -> NamespaceSecret;
+    /// A-crypto-2 (b), as in prelude/cap_shells.rs
     #[verifier::external_body]
-    pub fn from_bytes(bytes: &[u8; 32]) -> NamespaceSecret { unimplemented!() }
+    pub fn from_bytes(bytes: &[u8; 32]) -> (r: NamespaceSecret)
+        ensures r == NamespaceSecret::spec_from_bytes(bytes@), r.spec_to_bytes() == bytes@
+    { unimplemented!() }
 }
 pub enum Capability { Write(NamespaceSecret), Read(NamespaceId) }
 impl Capability {
     #[verifier::external_body]
-    pub fn id(&self) -> NamespaceId { unimplemented!() }
+    pub fn id(&self) -> (r: NamespaceId)
+        ensures *self is Write ==> r == self->Write_0.spec_id()
+    { unimplemented!() }
     #[verifier::external_body]
-    pub fn raw(&self) -> (u8, [u8; 32]) { unimplemented!() }
+    pub fn raw(&self) -> (r: (u8, [u8; 32]))
+        ensures *self is Write ==> r.0 == 1 && r.1@ == self->Write_0.spec_to_bytes()
+    { unimplemented!() }
 }
